@@ -23,6 +23,13 @@ func resetKnobs() { knobs = Knobs{KeyCap: -1, FieldCap: -1, ReqsCap: -1} }
 
 const poisonByte = 0xDB
 
+// poisonFor returns the poison pattern of the current Put. It changes from one Put to the next:
+// with a constant pattern a result that aliases a pooled buffer would look unchanged after the
+// buffer has been reused and poisoned again.
+//
+//go:norace
+func poisonFor(w *simrt.World) byte { return byte(0x80 | (w.Stats[simrt.StatPoolPut]*7)&0x7f) }
+
 //go:norace
 func fillBytes(b []byte, v byte) {
 	for i := range b {
@@ -66,15 +73,18 @@ func init() {
 	simrt.RegisterPoolHook("thrift.bpPool", &simrt.PoolHook{
 		Poison: func(w *simrt.World, x interface{}) uint64 {
 			p := x.(*thrift.BinaryProtocol)
-			fillBytes(p.Buf[:cap(p.Buf)], poisonByte)
-			return uint64(cap(p.Buf))
+			pat := poisonFor(w)
+			fillBytes(p.Buf[:cap(p.Buf)], pat)
+			return uint64(pat)<<56 | uint64(cap(p.Buf))
 		},
 		Verify: func(w *simrt.World, x interface{}, tok uint64) string {
 			p := x.(*thrift.BinaryProtocol)
+			pat := byte(tok >> 56)
+			tok &= 1<<56 - 1
 			if uint64(cap(p.Buf)) != tok {
 				return fmt.Sprintf("Buf capacity changed %d -> %d after Put", tok, cap(p.Buf))
 			}
-			if i := firstDisturbed(p.Buf[:cap(p.Buf)], poisonByte); i >= 0 {
+			if i := firstDisturbed(p.Buf[:cap(p.Buf)], pat); i >= 0 {
 				return fmt.Sprintf("Buf[%d] written after Put", i)
 			}
 			return ""
@@ -139,16 +149,19 @@ func init() {
 
 func poisonBytesPtr(w *simrt.World, x interface{}) uint64 {
 	p := x.(*[]byte)
-	fillBytes((*p)[:cap(*p)], poisonByte)
-	return uint64(cap(*p))
+	pat := poisonFor(w)
+	fillBytes((*p)[:cap(*p)], pat)
+	return uint64(pat)<<56 | uint64(cap(*p))
 }
 
 func verifyBytesPtr(w *simrt.World, x interface{}, tok uint64) string {
 	p := x.(*[]byte)
+	pat := byte(tok >> 56)
+	tok &= 1<<56 - 1
 	if uint64(cap(*p)) != tok {
 		return fmt.Sprintf("capacity changed %d -> %d after Put", tok, cap(*p))
 	}
-	if i := firstDisturbed((*p)[:cap(*p)], poisonByte); i >= 0 {
+	if i := firstDisturbed((*p)[:cap(*p)], pat); i >= 0 {
 		return fmt.Sprintf("byte %d written after Put", i)
 	}
 	return ""
